@@ -175,10 +175,42 @@ def mk_reaction(rx, param):
                     inact_prod=dict((k, v) for k, v in rx["iprod"]))
 
 
+def substances_for(cin):
+    """substance list of the system: plain keys, or Species objects carrying the phase index the
+    case asks for (sphase; 0 = plain)."""
+    ph = cin.get("sphase") or []
+    if any(ph):
+        from chempy.chemistry import Species
+        return [Species(s, phase_idx=int(p)) for s, p in zip(cin["subst"], ph)]
+    return list(cin["subst"])
+
+
 def mk_system(cin, params, substances=None):
     from chempy import ReactionSystem
     rxns = [mk_reaction(rx, p) for rx, p in zip(cin["rxns"], params)]
-    return ReactionSystem(rxns, list(cin["subst"]) if substances is None else substances)
+    return ReactionSystem(rxns, substances_for(cin) if substances is None else substances)
+
+
+def initial_kvs(cin):
+    """rate constants the reactions are CONSTRUCTED with: the case lists the current constants and
+    the history of re-assignments <<i, old, new>> that led to them."""
+    kvs = [rx["kv"] for rx in cin["rxns"]]
+    seen = set()
+    for i, old, new in cin.get("hist") or []:
+        if i not in seen:
+            kvs[i - 1] = old
+            seen.add(i)
+    return kvs
+
+
+def replay_history(rsys, cin, mk_param, touch):
+    """evaluate, re-assign Reaction.param, evaluate, ... as the history of the case says; the caller
+    then observes the final state on the SAME objects."""
+    for i, old, new in cin.get("hist") or []:
+        guarded(touch)
+        rsys.rxns[i - 1].param = mk_param(i, new)
+    if cin.get("hist"):
+        pass
 
 
 def variables_for(cin, mode):
@@ -208,11 +240,12 @@ def cstr_arg(cin):
     from collections import OrderedDict
     if not cin["feed"]["on"]:
         return None
-    return (FEEDVAR, OrderedDict((s, fcvar(s)) for s in cin["subst"]))
+    order = cin["feed"].get("order") or cin["subst"]
+    return (FEEDVAR, OrderedDict((s, fcvar(s)) for s in order))
 
 
 def all_inputs(cin):
-    qs = list(cin["c"]) + [rx["kv"] for rx in cin["rxns"]]
+    qs = list(cin["c"]) + [rx["kv"] for rx in cin["rxns"]] + [q for h in cin.get("hist") or [] for q in h[1:]]
     if cin["feed"]["on"]:
         qs += [cin["feed"]["F"]] + list(cin["feed"]["cf"])
     return qs
@@ -231,12 +264,14 @@ def observe_numeric(cin, mode):
     `mode`.  Each entry is a projected value or {"raise": cls}."""
     from chempy.kinetics.ode import dCdt_list, law_of_mass_action_rates
     subst = list(cin["subst"])
-    params = [conv(rx["kv"], mode) for rx in cin["rxns"]]
+    params = [conv(kv, mode) for kv in initial_kvs(cin)]
     rsys = guarded(mk_system, cin, params)
     if is_raise(rsys):
         return {"build": rsys}
     v = variables_for(cin, mode)
     cs = cstr_arg(cin)
+    replay_history(rsys, cin, lambda i, kv: conv(kv, mode),
+                   lambda: ([r.rate(v) for r in rsys.rxns], rsys.rates(v, substance_keys=subst)))
     obs = {}
     obs["contrib_keys"] = [guarded(lambda r=r: proj_dict(r.rate(v, substance_keys=subst), subst)) for r in rsys.rxns]
     obs["contrib_default"] = [guarded(lambda r=r: proj_dict(r.rate(v), subst)) for r in rsys.rxns]
@@ -256,7 +291,7 @@ def observe_symbolic(cin, kmode):
     from chempy.kinetics.ode import dCdt_list, law_of_mass_action_rates
     subst = list(cin["subst"])
     if kmode == "num":
-        params = [conv(rx["kv"], "sym") for rx in cin["rxns"]]
+        params = [conv(kv, "sym") for kv in initial_kvs(cin)]
     else:
         params = [sympy.Symbol("k%d" % rx["k"]) for rx in cin["rxns"]]
     rsys = guarded(mk_system, cin, params)
@@ -265,6 +300,9 @@ def observe_symbolic(cin, kmode):
     v = symbols_for(cin)
     cs = cstr_arg(cin)
     names = var_names(cin)
+    if kmode == "num":
+        replay_history(rsys, cin, lambda i, kv: conv(kv, "sym"),
+                       lambda: ([r.rate(v) for r in rsys.rxns], rsys.rates(v, substance_keys=subst)))
 
     def tab(d):
         extra = sorted(k for k in d if k not in subst)
@@ -334,22 +372,45 @@ def gen_system(rng, rational):
     c = {s: rng.choice(pool) for s in subst}
     feed = None
     if rng.random() < 0.3:
-        feed = {"F": rng.choice(pool), "cf": {s: rng.choice(pool) for s in subst}}
-    return {"subst": subst, "rxns": rxns, "c": c, "feed": feed}
+        feed = {"F": rng.choice(pool), "cf": {s: rng.choice(pool) for s in subst}, "order": list(subst),
+                "usermap": False}
+        if rng.random() < 0.6:
+            # the caller's own substance -> feed-key mapping: any sub-permutation of the substances
+            order = rng.sample(subst, rng.randint(1, len(subst)))
+            feed.update(order=order, usermap=True)
+    phase = {s: rng.choice([0, 0, 0, 1, 2]) for s in subst} if rng.random() < 0.3 else {s: 0 for s in subst}
+    hist = []
+    if rng.random() < 0.3:
+        cur = [r["kv"] for r in rxns]
+        for _ in range(rng.randint(1, 2)):
+            i = rng.randrange(len(rxns))
+            new = [rng.choice([1, 2, 3, 5, 7]), 1]
+            if new != cur[i]:
+                hist.append([i + 1, new])
+                cur[i] = new
+    return {"subst": subst, "rxns": rxns, "c": c, "feed": feed, "phase": phase, "hist": hist}
 
 
 def system_to_case_in(sysd):
-    """seeded system -> the `in` vocabulary of a CASE (so that the same observers are used)."""
+    """seeded system -> the `in` vocabulary of a CASE (so that the same observers are used):
+    rxns carry the CURRENT constants, hist the re-assignments <<i, old, new>> that led there."""
     subst = sysd["subst"]
+    cur = [r["kv"] for r in sysd["rxns"]]
+    hist = []
+    for i, new in sysd.get("hist") or []:
+        hist.append([i, cur[i - 1], new])
+        cur[i - 1] = new
     rx = []
     for i, r in enumerate(sysd["rxns"]):
         rx.append({"reac": sorted(r["reac"].items()), "prod": sorted(r["prod"].items()),
                    "ireac": sorted(r["ireac"].items()), "iprod": sorted(r["iprod"].items()),
-                   "k": i + 1, "kv": r["kv"]})
+                   "k": i + 1, "kv": cur[i]})
     fd = sysd["feed"]
     return {"subst": subst, "rxns": rx, "c": [sysd["c"][s] for s in subst],
-            "feed": {"on": True, "F": fd["F"], "cf": [fd["cf"][s] for s in subst]} if fd
-            else {"on": False, "F": [0, 1], "cf": []}}
+            "sphase": [int((sysd.get("phase") or {}).get(s, 0)) for s in subst], "hist": hist,
+            "feed": {"on": True, "F": fd["F"], "cf": [fd["cf"][s] for s in subst],
+                     "order": list(fd.get("order") or subst), "usermap": bool(fd.get("usermap"))} if fd
+            else {"on": False, "F": [0, 1], "cf": [], "order": [], "usermap": False}}
 
 
 def system_events(sysd):
@@ -358,10 +419,15 @@ def system_events(sysd):
         ev.append({"ev": "AddReaction", "reac": full_map(r["reac"]), "prod": full_map(r["prod"]),
                    "ireac": full_map(r["ireac"]), "iprod": full_map(r["iprod"]), "kv": r["kv"]})
     cfull = {s: sysd["c"].get(s, [1, 1]) for s in TRACE_SPECIES}
-    ev.append({"ev": "SetState", "subst": sysd["subst"], "c": cfull})
+    ev.append({"ev": "SetState", "subst": sysd["subst"], "c": cfull,
+               "phase": {s: int((sysd.get("phase") or {}).get(s, 0)) for s in TRACE_SPECIES}})
     if sysd["feed"]:
         ev.append({"ev": "Feed", "F": sysd["feed"]["F"],
-                   "cf": {s: sysd["feed"]["cf"].get(s, [1, 1]) for s in TRACE_SPECIES}})
+                   "cf": {s: sysd["feed"]["cf"].get(s, [1, 1]) for s in TRACE_SPECIES},
+                   "order": list(sysd["feed"].get("order") or sysd["subst"]),
+                   "usermap": bool(sysd["feed"].get("usermap"))})
+    for i, new in sysd.get("hist") or []:
+        ev.append({"ev": "Reassign", "i": i, "kv": new})
     return ev
 
 
@@ -409,8 +475,35 @@ def parlin_class():
     return _PARLIN[0]
 
 
+_PROD2 = []
+
+
+def prod2_class():
+    """Rate constant  p * q  with two unique keys and explicit defaults ("ma_uk2")."""
+    if not _PROD2:
+        from chempy.util._expr import Expr
+
+        class Prod2(Expr):
+            argument_names = ("p", "q")
+
+            def __call__(self, variables, backend=None, **kw):
+                p, q = self.all_args(variables, backend=backend)
+                return p * q
+
+        _PROD2.append(Prod2)
+    return _PROD2[0]
+
+
 def kname(i):
     return "k%d" % i
+
+
+def pname(i):
+    return "p%d" % i
+
+
+def qname(i):
+    return "q%d" % i
 
 
 def symname(s):
@@ -418,7 +511,7 @@ def symname(s):
     return "c_" + s
 
 
-def param_obj(kind, i, kv):
+def param_obj(kind, i, kv, cfg=None):
     from chempy.kinetics.rates import MassAction
     v = conv(kv, "int") if kv[1] == 1 else conv(kv, "frac")
     if kind == "num":
@@ -433,6 +526,8 @@ def param_obj(kind, i, kv):
         return MassAction([v], unique_keys=(kname(i),))
     if kind == "ma_pk":
         return MassAction(parlin_class()([v]))
+    if kind == "ma_uk2":
+        return MassAction(prod2_class()([v, conv(cfg["qval"], "int")], unique_keys=(pname(i), qname(i))))
     raise ValueError(kind)
 
 
@@ -453,7 +548,7 @@ def build_odesys(cin):
     from chempy.kinetics.ode import get_odesys, _create_odesys
     from chempy.util._expr import Constant
     cfg = cin["cfg"]
-    params = [param_obj(kd, rx["k"], rx["kv"]) for kd, rx in zip(cfg["kinds"], cin["rxns"])]
+    params = [param_obj(kd, rx["k"], kv, cfg) for kd, rx, kv in zip(cfg["kinds"], cin["rxns"], initial_kvs(cin))]
     if cfg["comp"]:
         substances = OrderedDict(
             (s, Substance(s, composition=dict((int(k), int(v)) for k, v in comp)))
@@ -465,10 +560,20 @@ def build_odesys(cin):
         rsys = mk_system(cin, params)
     Lin = lin_class()
     a = conv(cfg["aval"], "int")
+    order = cin["feed"].get("order") or cin["subst"]
+    if cin.get("hist"):
+        # history: build once, re-assign Reaction.param (same kind, new value), build again
+        cin0 = dict(cin, hist=[], rxns=[dict(rx, kv=kv) for rx, kv in zip(cin["rxns"], initial_kvs(cin))])
+        replay_history(rsys, cin, lambda i, kv: param_obj(cfg["kinds"][i - 1], i, kv, cfg),
+                       lambda: (build_odesys(cin0), [r.rate_expr() for r in rsys.rxns]))
     if cfg["builder"] == "get_odesys":
         subs = OrderedDict()
         for i, (sk, rx) in enumerate(zip(cfg["subs"], cin["rxns"])):
-            if sk == "num":
+            if sk == "num" and cfg["kinds"][i] == "ma_uk2":
+                subs[pname(rx["k"])] = conv(cfg["subvals"][i], "int")
+            elif sk == "num2":
+                subs[qname(rx["k"])] = conv(cfg["subvals"][i], "int")
+            elif sk == "num":
                 subs[kname(rx["k"])] = conv(cfg["subvals"][i], "int")
             elif sk == "expr":
                 subs[kname(rx["k"])] = Lin([a])
@@ -489,8 +594,11 @@ def build_odesys(cin):
             if FEEDVAR in cfg["consts"]:
                 attrs[FEEDVAR] = conv(cfg["fconst"], "float")
             kw["constants"] = type("Constants", (), attrs)
-        return get_odesys(rsys, include_params=cfg["incl"], substitutions=subs or None,
-                          cstr=bool(cfg["cstr"]), **kw)
+        cstr = bool(cfg["cstr"])
+        if cstr and cin["feed"].get("usermap"):
+            # the caller's own (feed-ratio key, substance -> feed-concentration key) mapping
+            cstr = (FEEDVAR, OrderedDict((s, fcvar(s)) for s in order))
+        return get_odesys(rsys, include_params=cfg["incl"], substitutions=subs or None, cstr=cstr, **kw)
     pe = {}
     for i, (sk, rx) in enumerate(zip(cfg["subs"], cin["rxns"])):
         if sk == "num":
@@ -501,7 +609,7 @@ def build_odesys(cin):
     if pe:
         kw["parameter_expressions"] = pe
     if cfg["cstr"]:
-        kw["rates_kw"] = dict(cstr_fr_fc=(FEEDVAR, OrderedDict((s, fcvar(s)) for s in cin["subst"])))
+        kw["rates_kw"] = dict(cstr_fr_fc=(FEEDVAR, OrderedDict((s, fcvar(s)) for s in order)))
     usyms = user_symbols(cin)
     if usyms is not None:
         kw["substance_symbols"] = usyms
@@ -612,12 +720,21 @@ def gen_build_config(rng, n, substs=(), feed=False):
         order = list(substs)
         rng.shuffle(order)
         cfg["symorder"] = order
+    # constants with two unique keys; substitution of the first / second key
+    if rng.random() < 0.3:
+        for i in range(n):
+            if subs[i] == "none" and kinds[i] not in ("num", "ma_pk") and rng.random() < 0.6:
+                kinds[i] = "ma_uk2"
+                if builder == "get_odesys":
+                    subs[i] = rng.choice(["none", "num", "num2"])
+    cfg["qval"] = [rng.choice([2, 3, 5]), 1]
     return cfg
 
 
 def default_pk_fields():
     return {"gsub": "none", "fsub": "none", "consts": [], "symorder": [],
-            "gval": [1, 1], "gsubval": [1, 1], "gconst": [1, 1], "fsubval": [1, 1], "fconst": [1, 1]}
+            "gval": [1, 1], "gsubval": [1, 1], "gconst": [1, 1], "fsubval": [1, 1], "fconst": [1, 1],
+            "qval": [1, 1]}
 
 
 # ----------------------------------------------------------------------------- repository suite (code -> spec)
